@@ -376,14 +376,15 @@ func runDsytrd(t *vlib.T, n int, p prof, f family, uplo blas.Uplo, ldx int, lw s
 		var zd []float64
 		ldz := 1
 		var wk []float64
+		ldzz := ldOf(n, off(ldx, 1))
 		switch compz {
 		case lapack.EVOrig:
-			z = fromM(qg, lda).snap()
-			zd, ldz = z.d, lda
+			z = fromM(qg, ldzz).snap()
+			zd, ldz = z.d, ldzz
 			wk = poisoned(max(1, 2*n-2))
 		case lapack.EVTridiag:
-			z = newS(n, n, lda).snap()
-			zd, ldz = z.d, lda
+			z = newS(n, n, ldzz).snap()
+			zd, ldz = z.d, ldzz
 			wk = poisoned(max(1, 2*n-2))
 		}
 		var ok bool
